@@ -319,6 +319,7 @@ package stack
 //@   loop 0: invariant [dumpStartedMeansProgress C03] s.state != looking ==> old(fetched(in)) + (wlen(prefix) - old(wlen(prefix))) < pos(r)
 //@   loop 0: invariant [errIsReaderError C10] (rdErr != nil && rdErr != io.EOF ==> err == rdErr) && (err == nil ==> rdErr == nil)
 //@   loop 0: invariant werrs(prefix) >= old(werrs(prefix)) && (err == nil ==> werrs(prefix) == old(werrs(prefix)))
+//@   loop 0: invariant [everyLineReadSoFarIsWrittenBeforeTheNextRead C11] s.state == looking && werrs(prefix) == old(werrs(prefix)) ==> old(fetched(in)) + (wlen(prefix) - old(wlen(prefix))) == pos(r)
 //@   loop 0: decreases (err == nil ? 1 : 0)
 //@   loop 0: decreases N(in) - pos(r)
 
